@@ -35,14 +35,16 @@ type pkgInfo struct {
 }
 
 var (
-	fset        = token.NewFileSet()
-	shared      = map[*types.TypeName]bool{}
-	sharedNames = map[string]bool{}
-	writtenVars = map[*types.Var]bool{}
-	unsupported []string
-	unhooked    []string
-	root        string
-	stats       = map[string]int{}
+	fset           = token.NewFileSet()
+	shared         = map[*types.TypeName]bool{}
+	sharedNames    = map[string]bool{}
+	writtenVars    = map[*types.Var]bool{}
+	unsupported    []string
+	unhooked       []string
+	allowedChanOps = map[ast.Node]bool{}
+	pendingRecv    []*ast.UnaryExpr
+	root           string
+	stats          = map[string]int{}
 )
 
 func fail(format string, a ...interface{}) {
@@ -234,6 +236,7 @@ func (r *rewriter) hooksIn(e ast.Node) []ast.Stmt {
 	var out []ast.Stmt
 	info := r.p.info
 	skip := map[ast.Node]bool{}
+	objDone := map[*ast.Ident]bool{}
 	ast.Inspect(e, func(n ast.Node) bool {
 		if sel, ok := n.(*ast.SelectorExpr); ok {
 			// a.b.c with b a struct VALUE touches only &a.b.c: the inner selection is not a separate access
@@ -277,6 +280,7 @@ func (r *rewriter) hooksIn(e ast.Node) []ast.Stmt {
 							kind = 0
 						}
 						out = append(out, r.objStmt(id, v, kind))
+						objDone[id] = true
 					}
 				}
 			}
@@ -284,6 +288,7 @@ func (r *rewriter) hooksIn(e ast.Node) []ast.Stmt {
 				if id, ok := a.(*ast.Ident); ok {
 					if v := r.foreignPkgVar(id); v != nil {
 						out = append(out, r.objStmt(id, v, 0))
+						objDone[id] = true
 					}
 				}
 			}
@@ -344,7 +349,15 @@ func (r *rewriter) hooksIn(e ast.Node) []ast.Stmt {
 			out = append(out, r.accStmts(x, tv.Type, x.Pos())...)
 		case *ast.Ident:
 			v, ok := info.Uses[x].(*types.Var)
-			if !ok || !writtenVars[v] {
+			if !ok {
+				return true
+			}
+			if fv := r.foreignPkgVar(x); fv != nil && !objDone[x] {
+				// handing the object on (return, argument, assignment) counts as reading it: whoever receives it
+				// will look inside without any further synchronisation
+				out = append(out, r.objStmt(x, fv, 0))
+			}
+			if !writtenVars[v] {
 				return true
 			}
 			out = append(out, r.accStmts(x, v.Type(), x.Pos())...)
@@ -426,16 +439,16 @@ func (r *rewriter) accStmts(x ast.Expr, t types.Type, pos token.Pos) []ast.Stmt 
 func (r *rewriter) block(list []ast.Stmt) []ast.Stmt {
 	var out []ast.Stmt
 	for _, st := range list {
-		hooks, bodyHooks := r.stmt(st)
-		_ = bodyHooks
+		hooks, after := r.stmt(st)
 		out = append(out, hooks...)
 		out = append(out, st)
+		out = append(out, after...)
 	}
 	return out
 }
 
 // stmt instruments one statement in place and returns the hooks to put before it.
-func (r *rewriter) stmt(st ast.Stmt) (before []ast.Stmt, _ []ast.Stmt) {
+func (r *rewriter) stmt(st ast.Stmt) (before []ast.Stmt, after []ast.Stmt) {
 	r.markTargets(st)
 	switch s := st.(type) {
 	case *ast.BlockStmt:
@@ -510,9 +523,55 @@ func (r *rewriter) stmt(st ast.Stmt) (before []ast.Stmt, _ []ast.Stmt) {
 			cc.Body = r.block(cc.Body)
 		}
 	case *ast.SelectStmt:
-		r.unsupported(s.Pos(), "select statement")
+		// the "leaky buffer" idiom — every communication guarded by a default clause — never blocks, so the real
+		// channel can stay: a yield and a (conservative, two-way) synchronisation edge on the channel go in front
+		// of it and a yield behind it. Anything that can block is not modelled.
+		hasDefault := false
+		for _, cl := range s.Body.List {
+			if cl.(*ast.CommClause).Comm == nil {
+				hasDefault = true
+			}
+		}
+		if !hasDefault {
+			r.unsupported(s.Pos(), "select statement that can block")
+			break
+		}
+		for _, cl := range s.Body.List {
+			cc := cl.(*ast.CommClause)
+			if cc.Comm != nil {
+				var ch ast.Expr
+				switch cm := cc.Comm.(type) {
+				case *ast.SendStmt:
+					ch = cm.Chan
+					allowedChanOps[cm] = true
+				case *ast.ExprStmt:
+					if u, ok := cm.X.(*ast.UnaryExpr); ok && u.Op == token.ARROW {
+						ch = u.X
+						allowedChanOps[u] = true
+					}
+				case *ast.AssignStmt:
+					if len(cm.Rhs) == 1 {
+						if u, ok := cm.Rhs[0].(*ast.UnaryExpr); ok && u.Op == token.ARROW {
+							ch = u.X
+							allowedChanOps[u] = true
+						}
+					}
+				}
+				if ch == nil || !pure(ch) {
+					r.unsupported(cc.Pos(), "select communication on a computed channel")
+					continue
+				}
+				r.usedRT = true
+				stats["chanop"]++
+				before = append(before, rtCall("ChanOp", ch, strLit(posStr(cc.Pos()))))
+			}
+			// a yield right after the communication took place (first thing in the chosen clause)
+			cc.Body = append([]ast.Stmt{rtCall("YieldPoint", strLit("after-select@"+posStr(s.Pos())))}, r.block(cc.Body)...)
+		}
 	case *ast.SendStmt:
-		r.unsupported(s.Pos(), "channel send")
+		if !allowedChanOps[s] {
+			r.unsupported(s.Pos(), "blocking channel send")
+		}
 	case *ast.GoStmt:
 		r.unsupported(s.Pos(), "go statement")
 	case *ast.DeferStmt:
@@ -523,7 +582,7 @@ func (r *rewriter) stmt(st ast.Stmt) (before []ast.Stmt, _ []ast.Stmt) {
 		before = append(before, r.hooksIn(st)...)
 		r.funcLits(st)
 	}
-	return before, nil
+	return before, after
 }
 
 // funcLits instruments the bodies of function literals appearing in n.
@@ -545,11 +604,15 @@ func (r *rewriter) rewriteFile() {
 	// 1. constructs and simple replacements
 	ast.Inspect(r.file, func(n ast.Node) bool {
 		switch x := n.(type) {
-		case *ast.ChanType:
-			r.unsupported(x.Pos(), "channel type")
 		case *ast.UnaryExpr:
 			if x.Op == token.ARROW {
-				r.unsupported(x.Pos(), "channel receive")
+				pendingRecv = append(pendingRecv, x)
+			}
+		case *ast.RangeStmt:
+			if tv, ok := info.Types[x.X]; ok {
+				if _, isChan := tv.Type.Underlying().(*types.Chan); isChan {
+					r.unsupported(x.Pos(), "range over a channel")
+				}
 			}
 		case *ast.SelectorExpr:
 			id, ok := x.X.(*ast.Ident)
@@ -590,6 +653,14 @@ func (r *rewriter) rewriteFile() {
 		}
 		return true
 	})
+	defer func() {
+		for _, u := range pendingRecv {
+			if !allowedChanOps[u] {
+				r.unsupported(u.Pos(), "blocking channel receive")
+			}
+		}
+		pendingRecv = nil
+	}()
 	// 2. access hooks + function-entry yields
 	for _, d := range r.file.Decls {
 		fd, ok := d.(*ast.FuncDecl)
